@@ -105,8 +105,9 @@ CLAIMS.update({
  'C14': ('proof',
          'The ordering functor that fixes the order of abipkgdiff results, elf_size_is_greater (real text), equals the '
          'lexicographic order on (size sum descending, name ascending) for all inputs, hence is a strict weak order whose only '
-         'ties are equal keys; no signed overflow for sizes < 2^62.',
-         'Scoped to that functor. Absence of pointer-ordered iteration in the writer/comparison engine (sort_types, sort_string_* '
+         'ties are equal keys; no signed overflow for sizes < 2^62. symbol_sort (the order of a symtab\'s symbols, real text): '
+         'equals the order of the symbols\' id strings, a strict weak order with ties only between equal ids.',
+         'Scoped to those two functors. Absence of pointer-ordered iteration in the writer/comparison engine (sort_types, sort_string_* '
          'helpers over IR) is not decided.', '5 C14'),
 })
 
